@@ -452,5 +452,26 @@ pub fn loop_value_programs() -> Vec<(String, String)> {
         out.push((format!("f := () -> () {{ k := mut 0; loop {{ k += 1; {e} }} }}; f()"), "()".into()));
         out.push((format!("f := () -> [()] {{ k := mut 0; return [loop {{ k += 1; {e} }}] }}; f()"), "[()]".into()));
     }
+    // loops whose body never completes normally (it ends in return / break / continue on every path) still complete
+    // themselves when their condition fails or the break is taken
+    let hb = "hb := (v: bool) -> bool { return v }; ";
+    for (src, want) in [
+        ("f := (c: bool) -> int { while c { return 1 } }; f(false)", "<int-or-rejected>"),
+        ("f := (c: bool) -> int { while c { return 1 } return 2 }; (f(false), f(true))", "(2, 1)"),
+        ("f := (a: [int]) -> int { for x in a~ { return x } }; f([])", "<int-or-rejected>"),
+        ("f := (a: [int]) -> int { for x in a~ { return x } return 0 - 1 }; (f([]), f([7]))", "(-1, 7)"),
+        ("f := (u: int|string) -> int { while x: int = u { return x } }; f(\"s\")", "<int-or-rejected>"),
+        ("f := (c: bool) -> int { loop { if c { break } else { return 1 } } }; f(true)", "<int-or-rejected>"),
+        ("f := (c: bool) -> int { loop { if c { break } else { return 1 } } return 2 }; (f(true), f(false))", "(2, 1)"),
+        ("f := (c: bool) -> int { loop { match c { true => { break }, => { return 1 }, } } return 2 }; (f(true), f(false))", "(2, 1)"),
+        ("x := if hb(true) { loop { break } } else { 5 }; x", "()"),
+        ("x := if hb(false) { loop { break } } else { 5 }; x", "5"),
+        ("x := if hb(true) { while hb(false) { continue } } else { 5 }; [x]", "[()]"),
+        ("x := match hb(true) { true => { for i in [1]~ { break } }, => 5, }; (x, 1)", "((), 1)"),
+        ("f := () -> int|() { return loop { break } }; f()", "()"),
+        ("k := mut 0; x := while *k < 3 { k += 1; if *k == 2 { continue } else { continue } }; (x, *k)", "((), 3)"),
+    ] {
+        out.push((format!("{hb}{src}"), want.to_string()));
+    }
     out
 }
